@@ -362,11 +362,11 @@ func olderVersion(src string) string {
 
 type e1Result struct {
 	HistSame, HistDiffer int
-	Records    []map[string]interface{} // decoded harness records
-	Failures   []e1Failure
-	GenRuns    int
-	Builds     int
-	HarnessErr []string
+	Records              []map[string]interface{} // decoded harness records
+	Failures             []e1Failure
+	GenRuns              int
+	Builds               int
+	HarnessErr           []string
 }
 
 // runBatchPipeline generates, compiles (bisecting on failure) and runs the harness.
